@@ -51,6 +51,7 @@ type gstate struct {
 	lastTick int
 	lastRecv chan int // channels registered by the goroutine's latest block statement
 	lastSend chan int
+	stuck    bool // release mode: the channel operation it is blocked in cannot be completed by the harness
 	grant    chan struct{}
 	nOps     int
 	lastEv   int
@@ -201,7 +202,7 @@ func (r *runner) reg(c chan int) {
 	r.mu.Lock()
 	r.chans = append(r.chans, c)
 	if g := r.gs[gid]; g != nil {
-		g.lastRecv, g.lastSend = c, nil
+		g.lastRecv, g.lastSend, g.stuck = c, nil, false
 	}
 	r.mu.Unlock()
 }
@@ -215,6 +216,17 @@ func (r *runner) regS(c chan int) {
 		if r.closed[g.lastRecv] {
 			g.lastRecv = nil
 		}
+	}
+	r.mu.Unlock()
+}
+
+// regN announces a blocking operation on a channel the harness does not know (it can not be completed in the release
+// mode of the calibration: what follows it stays unobserved).
+func (r *runner) regN() {
+	gid := curGID()
+	r.mu.Lock()
+	if g := r.gs[gid]; g != nil {
+		g.lastRecv, g.lastSend, g.stuck = nil, nil, false
 	}
 	r.mu.Unlock()
 }
@@ -234,6 +246,9 @@ func (r *runner) release(g *gstate) {
 	defer r.mu.Unlock()
 	if g.lastEv >= 0 {
 		r.events[g.lastEv].BlockTick = g.lastTick
+	}
+	if (g.lastRecv == nil || r.closed[g.lastRecv]) && g.lastSend == nil {
+		g.stuck = true
 	}
 	r.closeOnce(g.lastRecv) // no effect when it is the (closed) channel of an earlier statement
 	if g.lastSend != nil {
@@ -330,6 +345,7 @@ func runOnce(rd rendered, cfg runCfg) (res runResult) {
 		"Call": reflect.ValueOf(r.hostcb),
 		"Reg":  reflect.ValueOf(r.reg),
 		"RegS": reflect.ValueOf(r.regS),
+		"RegN": reflect.ValueOf(r.regN),
 	}}); err != nil {
 		res.Err = "use: " + err.Error()
 		return
@@ -462,7 +478,7 @@ func runOnce(rd rendered, cfg runCfg) (res runResult) {
 			var blk *gstate
 			r.mu.Lock()
 			for _, g := range r.order {
-				if g.status == "blocked" && !g.pending {
+				if g.status == "blocked" && !g.pending && !g.stuck {
 					blk = g
 				}
 			}
